@@ -325,8 +325,11 @@ class C10(core.Check):
             small.append(("n13", [r.choice([1, 3, 9, 200]) for _ in range(13)], 0))
             # chunk starts / ends on exact powers of ten (digit-count edges of the rendered text): header padded with a dictionary
             small.append(("n10p", [9000, 90000, 1, 9, 90, 900, 9000 - 1, 2, 5, 890000], 300))
+        # another writer's header: unused bytes behind the signatures (the data section begins after the DECLARED header size)
+        small.append(("n6t", [3, 8, 1, 20, 5, 2], 0))
+        small.append(("n5td", [7, 7, 1, 9, 30], 13))
         for name, sizes, ds in small:
-            data = make_base(r, sizes, ds, zero_digest=(name != "n7e"))
+            data = make_base(r, sizes, ds, zero_digest=(name != "n7e"), tail=(r.choice([1, 9, 300]) if name in ("n6t", "n5td") else 0))
             p = zckref.parse(data)
             if name == "n10p":
                 # pad the header so that the first data chunk starts at offset 1000 exactly (then 10000, 100000 follow from the sizes)
@@ -359,7 +362,7 @@ class C10(core.Check):
         # --- several markings in a row on one context (chunks in front of earlier requests become missing again)
         for i in range(60 if self.quick else 1500):
             n = r.choice([6, 10, 25])
-            data = make_base(r, [r.choice([1, 2, 5, 40]) for _ in range(n)], r.choice([0, 11]))
+            data = make_base(r, [r.choice([1, 2, 5, 40]) for _ in range(n)], r.choice([0, 11]), tail=r.choice([0, 0, 0, 9]))
             p = zckref.parse(data)
             steps = r.choice([2, 3, 4])
             vecs = []
@@ -473,6 +476,25 @@ class C10(core.Check):
                 out.append(dict(name="huge-%d-%d" % (base_off, shift), data=core.b64(tgt), vectors=[[0]], limits=[[-1, 4000, 255]], tag="huge-offsets", zh=zh, seed=self.seed, seq=True,
                                 match_src=core.b64(src)))
                 nhuge += 1
+        # two missing chunks separated by valid data of exactly k x 4 GiB (and one byte either side): distances whose low 32 bits are 0 / 1 / all ones
+        for gi, gap in enumerate([1 << 32, (1 << 32) + 1, (1 << 32) - 1, 1 << 33, 3 << 32, (1 << 32) + (1 << 31)]):
+            cds = 16
+            m1 = (r.randbytes(cds), None, 100, 100)
+            m2 = (r.randbytes(cds), None, 200, 200)
+            m3 = (r.randbytes(cds), None, 7, 7)
+            if gi % 2 == 0:
+                valid = [(r.randbytes(cds), None, gap, gap)]
+            else:
+                a_ = r.randrange(1, 1 << 31)
+                valid = [(r.randbytes(cds), None, a_, a_), (r.randbytes(cds), None, gap - a_, gap - a_)]
+            v2 = (r.randbytes(cds), None, 1 << 32, 1 << 32)
+            chunks = [(bytes(cds), None, 0, 0), m1] + valid + [m2, v2, m3]
+            keep = [chunks[0]] + valid + [v2]
+            tgt = zckref.build(hash_type=1, flags=0, comp_type=0, chunk_hash_type=3, chunks=chunks, body=b"", data_digest=bytes(32))
+            src = zckref.build(hash_type=1, flags=0, comp_type=0, chunk_hash_type=3, chunks=keep, body=b"", data_digest=bytes(32))
+            out.append(dict(name="gap-%d" % gap, data=core.b64(tgt), vectors=[[0]], limits=[[-1, 0, 1, 2, 3, 7, 255]], tag="valid-gap-4GiB", zh=zh, seed=self.seed, seq=True,
+                            match_src=core.b64(src)))
+            nhuge += 1
         self.count("huge_offset_layouts", nhuge)
         self.extra_cov["buffer_crossing_slack_values"] = set(str(x) for x in hit)
         self.count("large_layouts", len(hit))
